@@ -177,10 +177,13 @@ CLAIMED = {
                 "C02_datetime_match_exact; C02_layout_translation: for every layout over the placeholders and literal characters (placeholders side by "
                 "side included) the replacement pass of DateTimeFieldFormat.__init__ and strptime's reading of the result give exactly the directives of "
                 "the layout, and C02_datetime_layout composes the two (rule text in the CID -> every real date written in it is accepted, unchanged); "
-                "proving the translation exposed a genuine defect (MMmm -> %%Mm, repaired by f42b7f8). Pattern (fnmatch.translate) and RegEx (subset) are modelled and checked by correspondence: per-type rule grammars, member and mutated "
+                "proving the translation exposed a genuine defect (MMmm -> %%Mm, repaired by f42b7f8). RegEx / Pattern: C02_regex_semantics - the model's "
+                "matcher (sets of end positions, closure loops on fuel len+1) succeeds iff the expression matches a prefix in the declarative sense, for every "
+                "expression of the subset and every value; the fuel is proved sufficient by a pigeonhole argument; C02_pattern - the expression "
+                "fnmatch.translate builds accepts exactly the values the glob denotes, used up entirely (GlobSem). Pattern (fnmatch.translate) and RegEx (subset) are modelled and checked by correspondence: per-type rule grammars, member and mutated "
                 "cells, all length declarations over 0..3 x all integers of <= 4 characters (quick; 0..5 x <= 6 characters thorough), 4 formats.",
-        "note": "Trusted: Lean kernel; model faithfulness (7.9M cell evaluations in the thorough tier without a disagreement); acceptance theorems "
-                "for Pattern and RegEx are not proved (correspondence only).",
+        "note": "Trusted: Lean kernel; model faithfulness (7.9M cell evaluations in the thorough tier without a disagreement); the text -> expression "
+                "parser of the RegEx subset (parseRegex) and CPython's re / fnmatch themselves are tied by correspondence only.",
         "technique": "Lean 4 proof (digits, range membership, length-derived ranges through the range parser, separator translation) + exhaustive/generated differential correspondence",
         "design_ref": "DESIGN.md §6 C02",
     },
